@@ -390,6 +390,23 @@ class Lowering:
             return args[1]
         if fname in ("list", "dict", "set") and not args and not kws:
             return ("display0", fname)
+        if fname == "bool" and len(args) == 1 and not kws and op(args[0]) == "param" and self.fn is not None:
+            prm = self.fn.param(args[0][1])
+            if prm is not None and prm.annotation is not None and ast.unparse(prm.annotation) == "bool":
+                return args[0]
+        if op(func) == "attr" and func[2] == "format" and is_const(func[1]) and isinstance(func[1][1], str) and not kws and not any(op(a) == "star" for a in args):
+            pieces = func[1][1].split("{}")
+            if len(pieces) == len(args) + 1 and not any("{" in x or "}" in x for x in pieces):
+                parts: list = []
+                for i, piece in enumerate(pieces):
+                    self._push_part(parts, ("const", piece))
+                    if i < len(args):
+                        self._push_part(parts, args[i])
+                return ("concat", tuple(parts)) if parts else ("const", "")
+        if op(func) == "attr" and func[2] == "join" and is_const(func[1]) and len(args) == 1 and not kws:
+            inner = args[0]
+            if op(inner) == "call" and op(inner[1]) == "attr" and inner[1][2] == "split" and len(inner[2]) == 1 and not inner[3]:
+                return ("call", ("attr", inner[1][1], "replace"), (inner[2][0], func[1]), ())
         if fname == "getattr" and len(args) in (2, 3) and not kws and is_const(args[1]) and isinstance(args[1][1], str):
             return self.mk_attr(args[0], args[1][1])
         return t
@@ -502,6 +519,8 @@ class Lowering:
         a, b = self.expr(e.body, env), self.expr(e.orelse, env)
         if is_const(c) and isinstance(c[1], bool):
             return a if c[1] else b
+        if c == a:
+            return ("or", (a, b))
         return ("ifexp", c, a, b)
 
     def _elts(self, elts, env):
